@@ -81,7 +81,8 @@ func scenarioC18(r *Run) {
 	var msgs []*sharedMsg
 	nmsg := 1 + t.Choose(2, "c18.nmsg")
 	for i := 0; i < nmsg; i++ {
-		spec := genSpec(t, SpecOpts{MaxExtra: 3, MaxSigner: 5, Cheap: true})
+		// (mostly cheap keys; now and then any key of the pool, RSA included)
+		spec := genSpec(t, SpecOpts{MaxExtra: 3, MaxSigner: 5, Cheap: !t.Bool(1, 5, "c18.anykey")})
 		foreign := t.Bool(1, 3, "c18.foreign")
 		var w *Wire
 		var is *Issued
@@ -495,17 +496,44 @@ func scenarioC18(r *Run) {
 	}
 	plans := make([]*taskPlan, ntasks)
 	var opNames []string
+	// a herd: every task runs the same operations on the same shared values
+	// (N request handlers verifying one message) - the commonest concurrent
+	// use there is
+	herd := t.Bool(1, 4, "c18.herd")
+	var herdKinds []int
 	for ti := range plans {
 		p := &taskPlan{}
+		if herd && ti > 0 {
+			// the same read-only operations on the same shared values; signing
+			// operations of the same kind, each on a message of its own
+			for _, k := range herdKinds {
+				switch {
+				case k == -1:
+					p.ops = append(p.ops, addSign()())
+				case k == -2:
+					p.ops = append(p.ops, addOwnSign()())
+				default:
+					p.ops = append(p.ops, menu[k]())
+				}
+			}
+			p.got = make([]c18Result, len(p.ops))
+			plans[ti] = p
+			continue
+		}
 		nops := 1 + t.Choose(4, "c18.nops")
 		for j := 0; j < nops; j++ {
 			var mk func() c18Op
+			kind := 0
 			if t.Bool(1, 4, "c18.op.sign") {
-				mk = addSign()
+				mk, kind = addSign(), -1
 			} else if t.Bool(1, 6, "c18.op.ownsign") {
-				mk = addOwnSign()
+				mk, kind = addOwnSign(), -2
 			} else {
-				mk = menu[t.Choose(len(menu), "c18.op")]
+				kind = t.Choose(len(menu), "c18.op")
+				mk = menu[kind]
+			}
+			if ti == 0 {
+				herdKinds = append(herdKinds, kind)
 			}
 			p.ops = append(p.ops, mk())
 		}
@@ -514,7 +542,13 @@ func scenarioC18(r *Run) {
 	}
 	// ---- schedule (drawn now; the tasks never touch the tape)
 	cfg := SchedConfig{Mode: t.Choose(2, "c18.sched.mode"), First: t.Choose(ntasks, "c18.sched.first")}
-	if cfg.Mode == 0 {
+	if herd && t.Bool(1, 2, "c18.sched.lockstep") {
+		cfg.Mode = 2
+		r.Probe("herd-in-lock-step")
+	}
+	if cfg.Mode == 2 {
+		// nothing more to draw
+	} else if cfg.Mode == 0 {
 		np := t.Choose(9, "c18.sched.npre")
 		at := int64(0)
 		for i := 0; i < np; i++ {
